@@ -7,6 +7,7 @@ from .lp import RoAffine, RoConstr
 from .lp import PiecewiseConvex, PWConstr
 from .lp import Solution, def_sol
 import numpy as np
+import copy
 from numbers import Real
 from collections.abc import Iterable
 # from .subroutines import *
@@ -314,7 +315,7 @@ class Model:
                                                        np.ndarray)
                          else constr.sense)
                 if sense == 0:
-                    self.all_constr.append(constr)
+                    self.all_constr.append(copy.copy(constr))
                 else:
                     left = RoAffine(constr.raffine, constr.affine,
                                     constr.rand_model)
